@@ -96,3 +96,37 @@ package resourcereservation
 // is never deleted while a live consumer is listed, a consumer never while a reservation pod is listed.
 //@   ensures [only-justified-deletes] forall p *v1.Pod :: gone(p) != old(gone(p)) ==> p != nil && gone(p) && ((isLive(rsc, p) && p.Status.Phase == "Running" && !hasRes(rsc, pods, len(pods))) || (isRes(rsc, p) && !hasLive(rsc, pods, len(pods))))
 //@ end
+
+// ---- the service as seen by the binder (package binding): ASSUMED interface contracts ----------
+// SyncForNode / ReserveGpuDevice / RemovePodGpuGroupsConnection may delete pods (gone) and relabel the in-memory
+// pod; they never touch the pods/binding sub-resource.
+// syncRequested(g): a SyncForGpuGroup(g) has been issued (by an event handler) since the ghost was last cleared
+//@ ghost syncRequested(g string) bool
+//@ func Interface.SyncForGpuGroup
+//@   props C17
+//@   modifies family(gone(nil)), family(syncRequested(""))
+//@   ensures syncRequested(gpuGroup)
+//@   ensures forall g string :: old(syncRequested(g)) ==> syncRequested(g)
+//@   ensures forall g string :: g != gpuGroup ==> syncRequested(g) == old(syncRequested(g))
+//@ end
+// protocol counters: how often the binder asked for a node-wide sync / for the removal of a pod's GPU-group labels
+//@ ghost nodeSyncs() int
+//@ ghost labelRemovals() int
+//@ func Interface.SyncForNode
+//@   props C11 C17
+//@   modifies family(gone(nil)), nodeSyncs()
+//@   ensures nodeSyncs() == old(nodeSyncs()) + 1
+//@ end
+//@ func Interface.ReserveGpuDevice
+//@   props C11 C17
+//@   requires pod != nil
+//@   modifies family(gone(nil)), fields(pod)
+//@   ensures pod.Name == old(pod.Name) && pod.Namespace == old(pod.Namespace) && pod.UID == old(pod.UID)
+//@ end
+//@ func Interface.RemovePodGpuGroupsConnection
+//@   props C11 C17
+//@   requires pod != nil
+//@   modifies fields(pod), labelRemovals()
+//@   ensures labelRemovals() == old(labelRemovals()) + 1
+//@   ensures pod.Name == old(pod.Name) && pod.Namespace == old(pod.Namespace) && pod.UID == old(pod.UID)
+//@ end
